@@ -174,7 +174,12 @@ class Facts:
 
     # ---- lookup
     def fn_all(self, name):
-        return list(self.by_name.get(name, []))
+        r = list(self.by_name.get(name, []))
+        if not r:
+            # unique '::'-suffix match (functions in anonymous namespaces)
+            r = [f for k, v in self.by_name.items() if k.endswith("::" + name) for f in v]
+            r = list({f.id: f for f in r}.values())
+        return r
 
     def fn(self, name, nparams=None, sig_contains=None, optional=False):
         c = self.fn_all(name)
@@ -446,3 +451,36 @@ def inline_accessor(facts, n):
     if r.get("k") != "return" or not isinstance(r.get("e"), dict):
         return None
     return r["e"]
+
+
+def single_assignment_init(fn, decl):
+    """initialiser of a local variable that is written nowhere else in fn (else None)"""
+    cache = fn.__dict__.setdefault("_sai", {})
+    if decl in cache:
+        return cache[decl]
+    init = None
+    for n in fn.all_nodes():
+        if n.get("k") == "decl":
+            for v in n.get("vars", []):
+                if v.get("decl") == decl and isinstance(v.get("init"), dict) and not v.get("static"):
+                    init = v["init"]
+    if init is not None:
+        for r in fn.all_nodes():
+            if r.get("k") == "ref" and r.get("decl") == decl:
+                pid = fn.parent.get(r["id"])
+                p = fn.nodes.get(pid) if pid is not None else None
+                if p is None:
+                    continue
+                k = p.get("k")
+                if k == "binop" and p.get("op", "").endswith("=") and p["op"] not in ("==", "!=", "<=", ">=") and p.get("lhs", {}).get("id") == r["id"]:
+                    init = None
+                elif k == "unop" and p.get("op") in ("++", "--", "&"):
+                    init = None
+                elif k == "call" and p.get("ck") == "operator" and p.get("args") and p["args"][0].get("id") == r["id"] and (p.get("op", "").endswith("=") and p["op"] not in ("==", "!=", "<=", ">=") or p.get("op") in ("++", "--")):
+                    init = None
+                elif k == "call" and p.get("ck") == "member" and isinstance(p.get("obj"), dict) and p["obj"].get("id") == r["id"] and p.get("constm") is False:
+                    init = None
+                if init is None:
+                    break
+    cache[decl] = init
+    return init
